@@ -496,7 +496,7 @@ pub fn run(ctx: &mut Ctx) {
     ctx.floor("empty-first-fragment", 500);
 
     // ------------------------------------------------ S1/S2: random k-way splits
-    let n = ctx.tier.pick(12_000, 120_000);
+    let n = ctx.tier.pick(48000, 480000);
     ctx.family("S1-S2-splits", n, |ctx, case: &mut Case| {
         let r = &mut case.rng;
         let hb = case.idx % 4 == 3;
@@ -562,7 +562,7 @@ pub fn run(ctx: &mut Ctx) {
     });
 
     // ------------------------------------------------ S3/S4/S6: histories with foreign records, nocopy, app data
-    let n = ctx.tier.pick(12_000, 120_000);
+    let n = ctx.tier.pick(48000, 480000);
     ctx.family("S3-S4-S6-histories", n, |ctx, case: &mut Case| {
         let r = &mut case.rng;
         let mut ops: Vec<Op> = Vec::new();
@@ -621,7 +621,7 @@ pub fn run(ctx: &mut Ctx) {
     });
 
     // ------------------------------------------------ S7: op soups
-    let n = ctx.tier.pick(8_000, 80_000);
+    let n = ctx.tier.pick(32000, 320000);
     ctx.family("S7-soup", n, |ctx, case: &mut Case| {
         let r = &mut case.rng;
         let n = r.usize(1, 30);
